@@ -19,7 +19,7 @@ LEVEL = 'exploration'
 EVAL_KEY = 'runs'
 C = 10.0
 TIERS = {
-    'quick': {'runs': 4000, 'opts': {}, 'chunk': 25},
+    'quick': {'runs': 16000, 'opts': {}, 'chunk': 50},
     'thorough': {'runs': 300000, 'opts': {}, 'chunk': 100, 'time_cap': 1500},
 }
 RULE = ('per run: routine in {fast_matvec, dmrg_hadamard, amen_mv, amen_mm}; order 1..6; row/column/inner mode sizes 1..6 drawn '
@@ -209,7 +209,10 @@ def exec_case(p, res):
     ne = gen.fro(exact)
     err = gen.fro(full - exact.reshape(full.shape))
     u = gen.UNIT_ROUNDOFF[p['dt']]
-    bound = C * p['eps'] * ne + 1000 * u * ne
+    rep = 1.0      # magnitude of the operands' representation: roundoff is relative to prod ||cores||, not to ||exact||
+    for c_ in list(A.cores) + list(B.cores):
+        rep *= gen.fro(c_)
+    bound = C * p['eps'] * ne + 1000 * u * max(ne, rep)
     ratio = err / (p['eps'] * ne) if ne > 0 else (0.0 if err == 0 else float('inf'))
     if not err <= bound:
         out.append(core.violation(PROP, 'ACCURACY', p['routine'], 'error', 'relative error %.3g = %.3g * eps (eps=%.0e), ranks %s' % (err / max(ne, 1e-300), ratio, p['eps'], gen.ints(y.R)), desc))
